@@ -111,7 +111,7 @@ impl Property for C10 {
         "C (GGM variant): one puncturable key and its clones driven through operation histories"
     }
     fn rule(&self) -> &'static str {
-        "one run = GGM::setup() under the entropy seam, a full sweep fixing the model table V[0..255] (pairwise distinct), then a drawn history of eval / puncture / repeated puncture / wrong-length eval and puncture (0,2,3 bytes) / clone-and-switch, with puncture orders from {uniform, ascending, descending, sibling-first, cousins, subtree-last, boundaries-first} and lengths from a few to all 256 (incl. the 256th); after every operation the result is compared with the model and the affected subtree plus a sample (or the full domain: chance 1/8 quick, 1/2 thorough, and always at the end) is swept. Seeded search over histories, not exhaustive subset enumeration. non-trivial = >= 3 punctures and a full sweep after them; states = distinct punctured-set bitmasks"
+        "one run = GGM::setup() under the entropy seam, a full sweep fixing the model table V[0..255] (pairwise distinct), then a drawn history of eval / puncture / repeated puncture / wrong-length eval and puncture (0, 2, 3, 9, 32, 255, 256, 257, 513 bytes) / clone-and-switch, with puncture orders from {uniform, ascending, descending, sibling-first, cousins, subtree-last, boundaries-first} and lengths from a few to all 256 (incl. the 256th); after every operation the result is compared with the model and the affected subtree plus a sample (or the full domain: chance 1/8 quick, 1/2 thorough, and always at the end) is swept. Seeded search over histories, not exhaustive subset enumeration. non-trivial = >= 3 punctures and a full sweep after them; states = distinct punctured-set bitmasks"
     }
     fn runs(&self, thorough: bool) -> u64 {
         if thorough { 40_000 } else { 1_200 }
@@ -168,7 +168,8 @@ impl Property for C10 {
                 }
                 2 => {
                     // wrong-length operations must fail and change nothing
-                    let len = *ctx.ch.pick(&[0usize, 2, 3, 9]);
+                    // (lengths that are 1 modulo 2^8 / 2^16 included: a length compared after narrowing would pass)
+                    let len = *ctx.ch.pick(&[0usize, 2, 3, 9, 32, 255, 256, 257, 513]);
                     let inp = ctx.ch.bytes(len);
                     let mut out = [0u8; 32];
                     let before = mask_hash(&insts[cur].punctured);
